@@ -2,6 +2,7 @@ package main
 
 import (
 	"context"
+	"errors"
 	"fmt"
 	"time"
 
@@ -16,6 +17,7 @@ type Runner struct {
 	Env     *sopenv.Env
 	Rec     *Recorder
 	MaxTime time.Duration
+	NoReset bool // keep counting backend calls across CommitStart (sweeps count from Begin)
 	obsN    int
 }
 
@@ -28,6 +30,8 @@ func mode(m string) sop.TransactionMode {
 	}
 	return sop.ForWriting
 }
+
+type btreeIS = btree.BtreeInterface[int, string]
 
 type LiveTxn struct {
 	Label  string
@@ -48,7 +52,11 @@ func (r *Runner) BeginTxn(ctx context.Context, label string, p *Program, spec Tx
 	for _, s := range spec.New {
 		o := p.Stores[s]
 		b, err := sopenv.NewBtree[int, string](ctx, t, o)
-		r.Rec.Add(Ev{Ev: "NewStore", T: label, S: o.Name, Unique: o.Unique, Ok: err == nil, Note: errs(err)})
+		if err != nil && errors.Is(err, decor.ErrInjected) {
+			r.Rec.Add(Ev{Ev: "OpError", T: label, S: o.Name, Op: "NewStore", Note: errs(err)})
+		} else {
+			r.Rec.Add(Ev{Ev: "NewStore", T: label, S: o.Name, Unique: o.Unique, Ok: err == nil, Note: errs(err)})
+		}
 		if err != nil {
 			lt.Dead = true
 			return lt, nil
@@ -58,7 +66,11 @@ func (r *Runner) BeginTxn(ctx context.Context, label string, p *Program, spec Tx
 	for _, s := range spec.Open {
 		o := p.Stores[s]
 		b, err := sopenv.OpenBtree[int, string](ctx, t, o.Name)
-		r.Rec.Add(Ev{Ev: "OpenStore", T: label, S: o.Name, Ok: err == nil, Note: errs(err)})
+		if err != nil && errors.Is(err, decor.ErrInjected) {
+			r.Rec.Add(Ev{Ev: "OpError", T: label, S: o.Name, Op: "OpenStore", Note: errs(err)})
+		} else {
+			r.Rec.Add(Ev{Ev: "OpenStore", T: label, S: o.Name, Ok: err == nil, Note: errs(err)})
+		}
 		if err != nil {
 			lt.Dead = true
 			return lt, nil
@@ -154,8 +166,7 @@ func scan(ctx context.Context, b btree.BtreeInterface[int, string]) ([]KV, error
 // End commits or rolls back; returns whether commit succeeded.
 func (r *Runner) End(ctx context.Context, lt *LiveTxn) bool {
 	if lt.Dead {
-		// the wrapper already rolled the transaction back
-		r.Rec.Add(Ev{Ev: "Rollback", T: lt.Label, Note: "dead"})
+		// the wrapper already rolled the transaction back (the failing call's event says so)
 		lt.T.Rollback(ctx)
 		return false
 	}
@@ -165,7 +176,9 @@ func (r *Runner) End(ctx context.Context, lt *LiveTxn) bool {
 		return false
 	}
 	r.Rec.Add(Ev{Ev: "CommitStart", T: lt.Label})
-	r.Env.Hub.ResetCounts(lt.Label)
+	if !r.NoReset {
+		r.Env.Hub.ResetCounts(lt.Label)
+	}
 	err := lt.T.Commit(ctx)
 	r.Rec.Add(Ev{Ev: "CommitEnd", T: lt.Label, Ok: err == nil, Note: errs(err), N: r.Env.Hub.Count(lt.Label)})
 	return err == nil
